@@ -24,6 +24,12 @@ Section SortProps.
   Lemma sorted_by_length l : length (sorted_by k l) = length l.
   Proof. apply Permutation_length, sorted_by_perm. Qed.
 
+  Lemma sorted_by_In x l : In x (sorted_by k l) <-> In x l.
+  Proof.
+    split; intros H; [eapply Permutation_in; [apply sorted_by_perm|exact H]|].
+    eapply Permutation_in; [apply Permutation_sym, sorted_by_perm|exact H].
+  Qed.
+
   Lemma insert_by_sorted x l : StronglySorted kle l -> StronglySorted kle (insert_by k x l).
   Proof.
     induction 1 as [|y l Hs IH Hy]; cbn [insert_by]; [repeat constructor|].
